@@ -230,7 +230,6 @@ dnfAndCancelNegation(DNF_And xx, DNF_And yy)
 			result->argv[rri] = xx->argv[xxi];
 			rri += 1;
 			xxi += 1;	/* Keep looking for yyi. */
-			yyi += 1;
 		}
 		else if (xxa == -yya) {
 			yyi += 1;
